@@ -1105,6 +1105,10 @@ func (e *c01Env) run(fields []string) (obs []string) {
 		return []string{"reset"}
 	case "C02.sq":
 		c01TTLNorm = c01MinTTL(e.cur.uans)
+		if e.cur.urcode == dns.RcodeServerFailure && (c01TTLNorm > 30 || len(e.cur.uans) == 0) {
+			// dnsproxy caches SERVFAIL for at most 30 s
+			c01TTLNorm = 30
+		}
 		defer func() { c01TTLNorm = 0 }()
 
 		return e.query(e.cur.cip, vutil.Unhex(fields[1]), uint16(vutil.Atoi(fields[2])))
@@ -1750,7 +1754,7 @@ func TestVerifC01Config(t *testing.T) {
 var c01Domains = []string{
 	"example.org", "ads.example.org", "sub.ads.example.org", "example.com", "tracker.net", "cdn.tracker.net",
 	"9gag.com", "www.9gag.com", "500px.org", "xample.org", "notexample.org", "example.org.evil.com", "org",
-	"a-b.example.org", "test.local",
+	"a-b.example.org", "test.local", "_srv.example.org", "a_b.example.org", "7.example.org", "x.example.123",
 }
 
 var c01ServicePool = []string{"9gag", "500px", "discord", "dailymotion", "box"}
